@@ -23,6 +23,9 @@ pub use state::ClusterState;
 #[cfg(scylla_verif)]
 #[doc(hidden)]
 pub use state::verif_hooks as verif_state_hooks;
+#[cfg(scylla_verif)]
+#[allow(missing_docs)]
+pub use metadata::update::verif_hooks as verif_update_hooks;
 #[cfg(test)]
 pub(crate) use state::NodeConfig;
 
